@@ -73,6 +73,22 @@ Theorem precancelled_touches_nothing : forall k ck max n rf apply size src rs ws
 Proof. exact precancelled_streams_untouched. Qed.
 Print Assumptions precancelled_touches_nothing.
 
+(* The cause attached to a context never influences a result: two contexts ending the same way (cancellation /
+   deadline) give identical results whatever their causes, and a context done at the call is reported as
+   'cancelled' for a cancellation and 'timeout' for a deadline — never as its cause. *)
+Theorem cause_is_irrelevant : forall (c1 c2 : ctxinfo) done rf max n apply size src rs ws,
+  cx_deadline c1 = cx_deadline c2 ->
+  read_at_most (pre_of done c1) (kind_of_ctx c1) max src rs = read_at_most (pre_of done c2) (kind_of_ctx c2) max src rs /\
+  copy_data rf (pre_of done c1) (kind_of_ctx c1) src rs ws = copy_data rf (pre_of done c2) (kind_of_ctx c2) src rs ws /\
+  copy_n rf (pre_of done c1) (kind_of_ctx c1) n src rs ws = copy_n rf (pre_of done c2) (kind_of_ctx c2) n src rs ws /\
+  limited_read (pre_of done c1) (kind_of_ctx c1) apply max size src rs = limited_read (pre_of done c2) (kind_of_ctx c2) apply max size src rs /\
+  r_kind (copy_data rf (pre_of true c1) (kind_of_ctx c1) src rs ws) = (if cx_deadline c1 then KTimeout else KCancelled).
+Proof.
+  intros c1 c2 done rf max n apply size src rs ws H.
+  unfold pre_of, kind_of_ctx. rewrite H. repeat split.
+Qed.
+Print Assumptions cause_is_irrelevant.
+
 (* ---------- part (b): check-pointed loops ---------- *)
 
 (* Whatever the run of an entry point looks like: after the context ends inside the k-th backend operation, the
